@@ -26,13 +26,14 @@ Definition has_unsafe_marker (m : meta) : bool :=
 
 (** ** the statements shared by the three byte-view impls
     `let size = ::core::mem::size_of::<Self>();`
-    `let <x> = unsafe { ::core::slice::from_raw_parts(<ptr> as *const Self as *const u8, size) };` *)
+    `let <x> = unsafe { ::core::slice::from_raw_parts(<ptr> as *const Self as *const ::core::primitive::u8, size) };` *)
 Definition let_size : expr :=
   ELet false "size"
     (ECall (EToks [P "::"; I "core"; P "::"; I "mem"; P "::"; I "size_of"; P "::"; P "<"; I "Self"; P ">"]) []).
 Definition raw_bytes (ptr : string) : expr :=
   EUnsafe [ECall (EPath (RCore ["slice"; "from_raw_parts"]))
-             [ECast (ECast (EVar ptr) [P "*"; I "const"; I "Self"]) [P "*"; I "const"; I "u8"];
+             [ECast (ECast (EVar ptr) [P "*"; I "const"; I "Self"])
+                    [P "*"; I "const"; P "::"; I "core"; P "::"; I "primitive"; P "::"; I "u8"];
               EVar "size"]].
 
 (** ** Debug: lists the bytes under the effective name, or bare when the name is disabled
